@@ -18,6 +18,9 @@ import Mathlib.Tactic
       C03_truncation_flow_asymmetric (F16: "redraw until inside" divides the flow by the inside mass C(x)) and
       C03_tpcn_fold_not_hastings (F17: the Student-t ratio at the folded point is not the Hastings ratio of the
       folded proposal);
+    * a THIRD defect found while building this check (F21): reflective coordinates with a correlated proposal covariance
+      (d ≥ 2) — the n-dimensional reflective statement needs the increment density to be even in each reflective
+      coordinate (fold_reflective_symmetric_nd); C03_reflect_correlated_asymmetric is the counter-example otherwise;
     * `_adapt_sigma` runs after accept/reject (C03_sigma_fixed_within_step).
   The states enter only through the three scalars  dx = |x-mu|^2_Sigma, dy = |y-mu|^2_Sigma, dxy = <x-mu,y-mu>_Sigma,
   so the statements are dimension-free.  Not formalised: the change of variables s = 1/g (gamma -> inverse gamma) and the
@@ -345,6 +348,61 @@ theorem C03_rwm_periodic_nd {ι : Type} (k : (ι → ℝ) → ℝ) (hk : ∀ z, 
       = exp (β * ly) * (∑' m : ι → ℤ, k (fun i => (m i : ℝ) + x i - y i))
         * Gen.Kernel.acceptProb β ly lx Gen.Kernel.rwmLogFactor :=
   rwm_flow_symmetric β lx ly _ _ (fold_periodic_symmetric_nd k hk x y)
+
+/-- reflective coordinates in any number of dimensions: the folded density `Σ_p k(pre_p(y) - x)` is symmetric PROVIDED
+    the increment density is even in each reflective coordinate separately (diagonal Σ in those coordinates, product
+    kernels).  For a CORRELATED increment this hypothesis fails and so does the conclusion: see
+    `C03_reflect_correlated_asymmetric` below. -/
+theorem fold_reflective_symmetric_nd {ι : Type} (k : (ι → ℝ) → ℝ)
+    (hk : ∀ (s : ι → Bool) (z : ι → ℝ), k (fun i => if s i then -z i else z i) = k z) (x y : ι → ℝ) :
+    (∑' p : ι → ℤ × Bool, k (fun i => Props.C16.reflPre (p i) (y i) - x i))
+      = ∑' p : ι → ℤ × Bool, k (fun i => Props.C16.reflPre (p i) (x i) - y i) := by
+  rw [← (Equiv.piCongrRight (fun _ : ι => Props.C16.flipE)).tsum_eq]
+  congr 1; funext p
+  rw [← hk (fun i => (p i).2) (fun i => Props.C16.reflPre (p i) (x i) - y i)]
+  congr 1; funext i
+  rcases h : p i with ⟨m, b⟩
+  cases b
+  · simp [Props.C16.flipE, Props.C16.reflPre, h]; ring
+  · simp [Props.C16.flipE, Props.C16.reflPre, h]; ring
+
+theorem C03_rwm_reflective_nd {ι : Type} (k : (ι → ℝ) → ℝ)
+    (hk : ∀ (s : ι → Bool) (z : ι → ℝ), k (fun i => if s i then -z i else z i) = k z) (x y : ι → ℝ) (β lx ly : ℝ) :
+    exp (β * lx) * (∑' p : ι → ℤ × Bool, k (fun i => Props.C16.reflPre (p i) (y i) - x i))
+        * Gen.Kernel.acceptProb β lx ly Gen.Kernel.rwmLogFactor
+      = exp (β * ly) * (∑' p : ι → ℤ × Bool, k (fun i => Props.C16.reflPre (p i) (x i) - y i))
+        * Gen.Kernel.acceptProb β ly lx Gen.Kernel.rwmLogFactor :=
+  rwm_flow_symmetric β lx ly _ _ (fold_reflective_symmetric_nd k hk x y)
+
+/-! ### … but NOT for a correlated increment (finding F21, discovered while building this check)
+
+  Mirroring a path at a reflective wall mirrors the increment in that coordinate only; the reverse move needs the
+  un-mirrored increment.  An even density `k(-ξ) = k(ξ)` is invariant under the JOINT sign flip, not under the flip of one
+  coordinate, unless Σ is diagonal there.  Toy: 2 × 2 cells, both coordinates reflective, increments `±(1,1)`. -/
+
+/-- cell index fold of a reflective coordinate with two cells per unit: … 1 0 | 0 1 | 1 0 | 0 1 … -/
+def cellFold (i : ℤ) : ℤ := if i % 4 < 2 then i % 4 else 3 - i % 4
+/-- perfectly correlated even increment law on ℤ²: `(1,1)` or `(-1,-1)`, each with probability 1/2 -/
+def diagK (ξ : ℤ × ℤ) : ℚ := if ξ = (1, 1) ∨ ξ = (-1, -1) then 1 / 2 else 0
+/-- transition probability of `fold (x + ξ)` on the 2 × 2 cells (uniform target: every proposal is accepted) -/
+def diagFolded (x y : ℤ × ℤ) : ℚ :=
+  (if (cellFold (x.1 + 1), cellFold (x.2 + 1)) = y then diagK (1, 1) else 0)
+  + (if (cellFold (x.1 - 1), cellFold (x.2 - 1)) = y then diagK (-1, -1) else 0)
+
+theorem diagK_even (ξ : ℤ × ℤ) : diagK (-ξ) = diagK ξ := by
+  rcases ξ with ⟨a, b⟩
+  unfold diagK
+  simp only [Prod.neg_mk, Prod.mk.injEq]
+  have : (-a = 1 ∧ -b = 1 ∨ -a = -1 ∧ -b = -1) ↔ (a = 1 ∧ b = 1 ∨ a = -1 ∧ b = -1) := by omega
+  simp only [this]
+
+/-- **F21**: with an even but correlated increment the reflective fold is not symmetric (`(0,1) → (1,1)` has probability
+    1/2, the reverse move 0), and the uniform law is not invariant: the four transition probabilities INTO the diagonal
+    corner `(1,1)` add up to 2, not 1. -/
+theorem C03_reflect_correlated_asymmetric :
+    diagFolded (0, 1) (1, 1) = 1 / 2 ∧ diagFolded (1, 1) (0, 1) = 0 ∧
+    diagFolded (0, 0) (1, 1) + diagFolded (0, 1) (1, 1) + diagFolded (1, 0) (1, 1) + diagFolded (1, 1) (1, 1) = 2 := by
+  refine ⟨?_, ?_, ?_⟩ <;> (simp [diagFolded, diagK, cellFold]; try norm_num)
 
 /-! ## 6. why the hard-boundary cells fail (F16): truncation by redraw -/
 
